@@ -457,6 +457,8 @@ class tensor:
         data[:] =
         [ 5. 13.]
         """
+        # Python integers (np.uint64 modes joined with computed ones give floats)
+        i1, i2 = int(i1), int(i2)
         if self.shape[i1] != self.shape[i2]:
             assert False, "Must contract along equally sized dimensions"
 
@@ -1874,6 +1876,7 @@ class tensor:
         elif skip_dim < 0:
             raise ValueError("Invalid modes in ttsv")
         else:
+            skip_dim = int(skip_dim)
             exclude_dims = np.arange(0, skip_dim + 1)
 
         if version == 1:  # Calculate the old way
